@@ -38,6 +38,7 @@ from ZODB.blob import remove_committed
 from ZODB.blob import remove_committed_dir
 from ZODB.blob import rename_or_copy_blob
 from ZODB.ExportImport import ExportImport
+from ZODB.interfaces import BlobError
 from ZODB.interfaces import IBlobStorage
 from ZODB.interfaces import IConnection
 from ZODB.interfaces import IStorageTransactionMetaData
@@ -642,6 +643,16 @@ class Connection(ExportImport):
                 blobfilename = obj._uncommitted()
                 if blobfilename is None:
                     assert serial is not None  # See _uncommitted
+                    if serial == z64 and (
+                            self._savepoint_storage is None or
+                            oid not in self._savepoint_storage.creating):
+                        # A new object, yet it has handed its data over
+                        # already: to a savepoint that was rolled back
+                        # or aborted.  Skipping it would store a
+                        # reference to an object without a record.
+                        raise BlobError("Blob without data: it was added"
+                                        " to a transaction before and"
+                                        " disowned again.")
                     self._modified.pop()  # not modified
                     continue
                 try:
